@@ -25,7 +25,8 @@ LEVEL = "fault_enumeration"
 RULE = ("base token = generated encryption plan (21 algs x 8 encs x zip x curves x compact/flattened/general, 1-3 recipients, AAD, "
         "apu/apv; plaintext <= 48 octets) minted by joserfc or by the reference (arbitrary header spelling); faults enumerated per "
         "base token: every single-bit flip of the decoded protected header, IV, ciphertext, tag, AAD and encrypted key (64 sampled "
-        "flips of the encrypted key for RSA/ECDH/PBES2 recipients), every truncation length and several extensions of tag and IV, "
+        "flips of the encrypted key for RSA/ECDH/PBES2 recipients), every truncation length and several extensions of tag and IV, 1-2 octets "
+        "cut from the front of the encrypted key (RSA base tokens whose ciphertext starts with a zero octet are found by construction), "
         "6 re-spellings of the protected header with equal parsed members, non-empty encrypted key in direct modes, every segment "
         "spliced from a second token, recipient-key and sender-key substitution, epk edits (coordinate flips, other curve, (0,0), "
         "x>=p, private member, other kty) and reference-forged tokens whose epk is an off-curve or small-order point, multi-recipient "
